@@ -140,7 +140,9 @@ var goodURIs = []string{"https://example.com/a", "http://hub.example.com/.identi
 var akaURIs = []string{"HTTP://Upper.example", "http://Upper.example", "https://example.com/profile", "https://example.com/zo%C3%AB", "https://example.com/zo\u00eb", "https://example.com/profile#", "https://example.com/a", "did:example:123",
 	"http://hub.example.com/.identity/did:example:0123456789abcdef/", "https://a.b/c?d=e#f", "/relative/path", "urn:uuid:6ba7b810-9dad-11d1-80b4-00c04fd430c8", "https://example.com/a b",
 	// references without a scheme parse as URIs too
-	"identityURI", "alias/1", "user@example.com", "#me", "?q=1"}
+	"identityURI", "alias/1", "user@example.com", "#me", "?q=1",
+	// path, query and fragment are case-sensitive: these are different URIs
+	"https://example.com/users/Alice", "https://example.com/users/alice", "https://example.com/x?id=aB3", "https://example.com/x?id=Ab3"}
 
 var badEndpointURIs = []string{"", "::bad", "example.com", "http://[::1", "%zz", "rel/path", "http://a b.com/"}
 var badAkaURIs = []string{"::bad", "http://[::1", "%zz", "http://a\x7fb", ":"}
